@@ -2,8 +2,34 @@
 
 package blockwise
 
+import (
+	"time"
+
+	"github.com/plgd-dev/go-coap/v3/message/pool"
+	"github.com/plgd-dev/go-coap/v3/pkg/cache"
+)
+
 // VerifTableSizes reports the number of entries in the sending and receiving
 // caches (read-only view for the verification harness; -tags verif only).
 func (b *BlockWise[C]) VerifTableSizes() (sending int, receiving int) {
 	return b.sendingMessagesCache.Length(), b.receivingMessagesCache.Length()
+}
+
+// VerifShiftDeadlines moves the validity deadline of every entry of both caches by d
+// into the past, as if d had elapsed since the entries were stored, WITHOUT sweeping:
+// entries whose deadline has passed stay in the maps until CheckExpirations runs
+// (virtual time for the verification harness; -tags verif only).
+func (b *BlockWise[C]) VerifShiftDeadlines(d time.Duration) {
+	b.receivingMessagesCache.Range(func(_ uint64, e *cache.Element[*messageGuard]) bool {
+		if v := e.ValidUntil.Load(); !v.IsZero() {
+			e.ValidUntil.Store(v.Add(-d))
+		}
+		return true
+	})
+	b.sendingMessagesCache.Range(func(_ uint64, e *cache.Element[*pool.Message]) bool {
+		if v := e.ValidUntil.Load(); !v.IsZero() {
+			e.ValidUntil.Store(v.Add(-d))
+		}
+		return true
+	})
 }
